@@ -38,7 +38,7 @@ let run_walk_a (id : string) (root : sp) (pv : sp pview) (steps : Iters.step lis
       let it = regs.(s.r) in
       let it' =
         match s.op with
-        | "inc" -> p_it_inc padd it | "dec" -> p_it_dec padd it
+        | "inc" | "pinc" -> p_it_inc padd it | "dec" | "pdec" -> p_it_dec padd it
         | "add" | "plus" -> p_it_add padd it (z s.arg) | "sub" | "minus" -> p_it_sub padd it (z s.arg)
         | "set" | "cpy" | "fset" -> regs.(s.arg)
         | "end" -> e | "begin" -> b
@@ -75,7 +75,7 @@ let run_walk_e (id : string) (root : sp) (pv : sp pview) (steps : Iters.step lis
       let it = regs.(s.r) in
       let it' =
         match s.op with
-        | "inc" -> p_e_inc it | "dec" -> p_e_dec it
+        | "inc" | "pinc" -> p_e_inc it | "dec" | "pdec" -> p_e_dec it
         | "add" | "plus" -> p_e_add it (z s.arg) | "sub" | "minus" -> p_e_sub it (z s.arg)
         | "set" | "cpy" | "fset" -> regs.(s.arg)
         | "end" -> e | "begin" -> b
